@@ -353,7 +353,7 @@ where
         }
         Ok(None) => {}
         Err(e) => {
-            if src.seen_doc_end() {
+            if src.seen_doc_end() && e.is_scan_error() {
                 // Trailing garbage after a proper document end marker is ignored.
             } else {
                 return Err(maybe_with_snippet(e, input, with_snippet, crop_radius));
@@ -465,7 +465,7 @@ fn from_str_with_options_and_path_recorder<T: DeserializeOwned>(
         }
         Ok(None) => {}
         Err(e) => {
-            if src.seen_doc_end() {
+            if src.seen_doc_end() && e.is_scan_error() {
                 // ignore trailing garbage
             } else {
                 return Err(maybe_with_snippet(e, input, with_snippet, crop_radius));
@@ -759,7 +759,7 @@ where
         }
         Ok(None) => {}
         Err(e) => {
-            if src.seen_doc_end() {
+            if src.seen_doc_end() && e.is_scan_error() {
                 // Trailing garbage after a proper document end marker is ignored.
             } else {
                 return Err(e);
@@ -1136,7 +1136,7 @@ where
         }
         Ok(None) => {}
         Err(e) => {
-            if src.seen_doc_end() {
+            if src.seen_doc_end() && e.is_scan_error() {
                 // Trailing garbage after a proper document end marker is ignored.
             } else {
                 return Err(e);
@@ -1728,7 +1728,7 @@ pub fn from_reader_with_options<'a, R: std::io::Read + 'a, T: DeserializeOwned>(
         }
         Ok(None) => {}
         Err(e) => {
-            if src.seen_doc_end() {
+            if src.seen_doc_end() && e.is_scan_error() {
                 // Trailing garbage after a proper document end marker is ignored.
             } else {
                 return Err(attach_snippet(e));
